@@ -235,6 +235,76 @@ def r10_4(ctx, fx):
     ctx.floor(rid, n, 2, "mirrored loop pairs")
 
 
+def r10_5(ctx, fx):
+    import re
+    from pplv import absint
+    rid = "R10.5"
+    ctx.rule(rid, "the product keeps the tighter bound: the product denotes the intersection of its components, so the supremum of an expression on it is at most the SMALLER of the two components' suprema and its infimum at least the LARGER of the two infima. maximize / minimize of Partially_Reduced_Product (with and without the generator argument) are interpreted on the order of the two component values (first below, equal, above the second; both bounded): the cross-multiplied comparison `v2_d * v1_n OP v1_d * v2_n` is decided by that order, and the values copied into the result must be those of the component with the tighter bound")
+    n = 0
+    seen = set()
+    for f in fx.functions:
+        if f.clsn != "Partially_Reduced_Product" or f.name not in ("maximize", "minimize") or not f.flag("pattern") or not f.cfg:
+            continue
+        if (f.relfile, f.line) in seen:
+            continue
+        seen.add((f.relfile, f.line))
+        pn = [p["n"] for p in f.params]
+        out_n = pn[1]
+        pre = "sup" if f.name == "maximize" else "inf"
+        bad = []
+        for rel in (-1, 0, 1):
+            def atom(e, env, it, rel=rel):
+                t = f.text(e).replace(" ", "")
+                k = e["k"]
+                if k == "ref":
+                    m = re.match(r"^%s([12])_n$" % pre, t)
+                    if m:
+                        return {m.group(1)}
+                    return None
+                if k in ("binop", "ocall") and e.get("op") in ("<", ">", "<=", ">="):
+                    m = re.match(r"^%s2_d\*%s1_n(<=|>=|<|>)%s1_d\*%s2_n$" % (pre, pre, pre, pre), t)
+                    if m:      # v1 OP v2 (denominators are positive)
+                        return {{"<": rel < 0, ">": rel > 0, "<=": rel <= 0, ">=": rel >= 0}[m.group(1)]}
+                    m = re.match(r"^%s1_d\*%s2_n(<=|>=|<|>)%s2_d\*%s1_n$" % (pre, pre, pre, pre), t)
+                    if m:      # v2 OP v1
+                        return {{"<": -rel < 0, ">": -rel > 0, "<=": -rel <= 0, ">=": -rel >= 0}[m.group(1)]}
+                    return None
+                if k in ("call", "mcall"):
+                    cn = f.call_name(e).lstrip("~")
+                    if cn == "is_empty":
+                        return {False}
+                    if cn in ("maximize", "minimize") and re.match(r"^d[12]\.", t):
+                        return {True}
+                return None
+            it = absint.CfgInterp(f, atom)
+            try:
+                got = set()
+                for ret, env, ev_ in it.run({out_n: None}):
+                    v = it.ev(ret["c"][0], env)
+                    if v == {True}:
+                        if env.get(out_n) is None:
+                            raise absint.Unknown("`%s` is not assigned on a path returning true" % out_n)
+                        got |= set(env[out_n])
+            except absint.Unknown as ex:
+                raise F.AnalysisBroken("R10.5: %s: %s — the interpretation does not know this form" % (f.name, ex))
+            n += 1
+            if f.name == "maximize":
+                want = {"1"} if rel < 0 else ({"2"} if rel > 0 else {"1", "2"})
+            else:
+                want = {"1"} if rel > 0 else ({"2"} if rel < 0 else {"1", "2"})
+            if not got or not got <= want:
+                bad.append((rel, got, want))
+        inst = "Partially_Reduced_Product::%s(%s)" % (f.name, ", ".join(pn))
+        if bad:
+            for rel, got, want in bad:
+                txt = {-1: "below", 0: "equal to", 1: "above"}[rel]
+                ctx.violation(rid, "%s, first component's value %s the second's" % (inst, txt), f.where(), "the result takes the value of component %s; the %s of the intersection is bounded by component %s" % (
+                    " or ".join(sorted(got)) or "?", "supremum" if f.name == "maximize" else "infimum", " or ".join(sorted(want))))
+        else:
+            ctx.ok(rid, inst, f.where())
+    ctx.floor(rid, n, 12, "orderings of the two component values interpreted")
+
+
 def run(ctx):
     ctx.explanation = ("C10 structural clauses on Partially_Reduced_Product and its four reductions: both components transformed alike, sound "
                        "connectives for predicates, reductions shrink only, symmetric halves mirror each other; decides these clauses, not that the "
@@ -246,3 +316,7 @@ def run(ctx):
     r10_2(ctx, fx)
     r10_3(ctx, fx)
     r10_4(ctx, fx)
+    r10_5(ctx, fx)
+    # the worker behind refine_with_constraints(), which the constraints-based reductions call on a Box component
+    from rules.c03 import r3_9
+    r3_9(ctx)
